@@ -490,6 +490,8 @@ type Clause struct {
 type LoopContract struct {
 	Invariants []Clause
 	Decreases  *SExpr
+	Wit        map[string]*SExpr // witnesses for preconditions of calls made inside the loop body
+	WitParam   map[string]string
 }
 
 type GhostLet struct {
@@ -513,10 +515,12 @@ type Contract struct {
 	Ensures  []Clause
 	Ghosts   []GhostLet
 	Loops    map[int]*LoopContract
+	InlinedLoops map[int]*LoopContract // invariants for the N-th loop met while expanding inlined helpers
 	NoPanic  bool
 	Inline   bool
 	Pure     bool
 	PureCallbacks bool // precondition: function-typed parameters do not write pre-existing memory
+	CopyFamily bool // a DeepCopy method: contract synthesised from the type declaration (C18)
 	Fresh    bool   // writes only memory allocated in its own activation (checked: frame obligations)
 	Modifies []string
 	ModifiesSet bool
@@ -570,7 +574,7 @@ func (cs *ContractSet) LoadContractText(text, path, pkgName string) error {
 		}
 		switch first {
 		case "spec", "axiom", "lemma", "func", "assume-contract", "requires", "ensures", "invariant", "ghost", "decreases",
-			"modifies", "nopanic", "pure", "inline", "loop", "property", "fresh", "copyof", "callbacks-modify-nothing":
+			"modifies", "nopanic", "pure", "inline", "loop", "inlined-loop", "property", "fresh", "copyof", "callbacks-modify-nothing", "witness":
 			items = append(items, t)
 			lineNo = append(lineNo, i+1)
 		default:
@@ -734,6 +738,17 @@ func (cs *ContractSet) LoadContractText(text, path, pkgName string) error {
 					return fail(i, err)
 				}
 				cur.Ghosts = append(cur.Ghosts, GhostLet{strings.TrimSpace(rest[:j]), e})
+			case "inlined-loop":
+				r := strings.TrimSpace(strings.TrimSuffix(strings.TrimSpace(rest), ":"))
+				n, err := strconv.Atoi(r)
+				if err != nil {
+					return fail(i, fmt.Errorf("bad inlined-loop ordinal %q", r))
+				}
+				curLoop = &LoopContract{}
+				if cur.InlinedLoops == nil {
+					cur.InlinedLoops = map[int]*LoopContract{}
+				}
+				cur.InlinedLoops[n] = curLoop
 			case "loop":
 				r := strings.TrimSpace(strings.TrimSuffix(strings.TrimSpace(rest), ":"))
 				n, err := strconv.Atoi(r)
@@ -750,6 +765,27 @@ func (cs *ContractSet) LoadContractText(text, path, pkgName string) error {
 				if curLoop != nil {
 					curLoop.Decreases = e
 				}
+			case "witness":
+				// witness f(x) := e   (inside a loop block: used for callee preconditions in the body)
+				k := strings.Index(rest, ":=")
+				if k < 0 || curLoop == nil {
+					return fail(i, fmt.Errorf("witness clause needs := and a loop block"))
+				}
+				wname, wparam := strings.TrimSpace(rest[:k]), ""
+				if o := strings.Index(wname, "("); o > 0 && strings.HasSuffix(wname, ")") {
+					wparam = strings.TrimSpace(wname[o+1 : len(wname)-1])
+					wname = strings.TrimSpace(wname[:o])
+				}
+				we, err := ParseSpecExpr(strings.TrimSpace(rest[k+2:]))
+				if err != nil {
+					return fail(i, err)
+				}
+				if curLoop.Wit == nil {
+					curLoop.Wit = map[string]*SExpr{}
+					curLoop.WitParam = map[string]string{}
+				}
+				curLoop.Wit[wname] = we
+				curLoop.WitParam[wname] = wparam
 			case "nopanic":
 				cur.NoPanic = true
 			case "pure":
